@@ -380,7 +380,13 @@ func (m *machine) check(what string) bool {
 		return false
 	}
 	atomic.AddInt64(&checksDone, 1)
-	key := fmt.Sprintf("%s d=%d %s byte=%d wire=%v", m.k.name, len(m.used), formName(m.last), m.last.BitsByte, m.fromWire)
+	// abstract state: (kind, palette size as announced on the wire | distinct ids for the direct
+	// form, representation, announced bits, decoded-from-wire flag)
+	psize := len(m.last.Palette)
+	if m.last.Form == refpal.Direct {
+		psize = len(m.used)
+	}
+	key := fmt.Sprintf("%s palette=%d %s byte=%d wire=%v", m.k.name, psize, formName(m.last), m.last.BitsByte, m.fromWire)
 	absMu.Lock()
 	absStates[key]++
 	absMu.Unlock()
@@ -409,6 +415,9 @@ func wireTag(b bool) string {
 // set performs one Set and (if judged) the full comparison.
 func (m *machine) set(kind string, pos, v int, judged bool) bool {
 	before := len(m.used)
+	if m.wireOK && m.last.Form != refpal.Direct {
+		before = len(m.last.Palette) // the palette only keeps values still present at the last upgrade
+	}
 	isNew := true
 	for _, u := range m.used {
 		if u == v {
